@@ -125,13 +125,11 @@ Proof.
   - vm_compute. reflexivity.
 Qed.
 
-(* known finding (findings/known_C10.json C10-final-newline): the norm of C10_run_depends_on_norm keeps the blanks
-   after the last line of the run, and it has to: at the end of a file that has no final newline, blanks after
-   the last token make luafmt write a final newline, no blanks make it write none *)
-Theorem C10_end_blanks_refuted :
-  exists cfg r1 r2, f_at_end cfg = true /\ rstrip r1 = rstrip r2 /\ fmt_run cfg r1 <> fmt_run cfg r2.
-Proof. exact fmt_run_end_blanks_refuted. Qed.
-Print Assumptions C10_end_blanks_refuted.
+(* blanks after the last token of a file without a final newline vanish (before the third fix they became a
+   newline, so that adding trailing spaces to the last line changed the output) *)
+Theorem C10_run_end_only_blanks : forall cfg r, f_at_end cfg = true -> forallb is_sp r = true -> fmt_run cfg r = [].
+Proof. exact fmt_run_end_only_blanks. Qed.
+Print Assumptions C10_run_end_only_blanks.
 
 Example C10_norm_nonvacuous :
   let r1 := [SP; TAB; NL; TAB; SP; DASH; DASH; 99; SP; SP; NL; SP; SP; SP] in
